@@ -13,6 +13,17 @@ Streams
          model's `readDoc`; the oracle compares the loaded document with an independent Python
          statement of the 1.0 content, checks the log mentions everything dropped and that the
          source bytes are unchanged.
+         Optional case keys (added after seeded round 2): "backend" = spelling of the backend
+         argument ("xml", "Json", ... or "default" = argument left out), "surface" = surface
+         syntax of the source text (pretty-printed, XML declaration with / without encoding,
+         stylesheet PI, comments before / after the root, file encodings and BOM; JSON written
+         with raw non-ASCII); "#comment" / "#pi" nodes inside the tree = XML comments and
+         processing instructions at that place (the model is asked about the tree without them).
+  hist   operation histories on ONE converter object: convert / write_to_file / str() in any
+         order, refused calls (unknown backend), failing calls (wrong backend, target in a missing
+         directory), the source rewritten between two calls, another converter working in
+         between; after every step the output, the log, the source and the created files are
+         observed and every delivered output is judged like a single conversion.
   csv    random value texts through xmlparser.from_csv and the model's `fromCsv`.
   uuid   id texts through uuid.UUID and the model's `parseUuid`.
   tables VersionConverter._version_map against the model's `versionMap`.
@@ -22,6 +33,7 @@ import json
 import os
 import re
 import shutil
+import subprocess
 import sys
 import tempfile
 import uuid as uuidlib
@@ -47,13 +59,45 @@ def xml_escape(s, attr=False):
     return s
 
 
+def is_misc(t):
+    """comment / processing instruction node of a generated tree"""
+    return t[0] in ("#comment", "#pi")
+
+
+def misc_to_xml(t):
+    return "<!--%s-->" % t[2] if t[0] == "#comment" else "<?%s?>" % t[2]
+
+
+def strip_misc(t):
+    return [t[0], t[1], t[2], [strip_misc(k) for k in t[3] if not is_misc(k)]]
+
+
+def has_misc(t):
+    return is_misc(t) or any(has_misc(k) for k in t[3])
+
+
 def tree_to_xml(t):
+    if is_misc(t):
+        return misc_to_xml(t)
     tag, attrs, text, kids = t
     a = "".join(' %s="%s"' % (k, xml_escape(v, True)) for k, v in attrs)
     inner = xml_escape(text) + "".join(tree_to_xml(k) for k in kids)
     if not inner:
         return "<%s%s/>" % (tag, a)
     return "<%s%s>%s</%s>" % (tag, a, inner, tag)
+
+
+def tree_to_pretty(t, depth=0):
+    """The same document indented the way the 1.0 files are: element-only content on lines of
+    its own; an element with text is left on one line (white space there would be content)."""
+    pad = "  " * depth
+    if is_misc(t):
+        return pad + misc_to_xml(t) + "\n"
+    tag, attrs, text, kids = t
+    if text or not kids:
+        return pad + tree_to_xml(t) + "\n"
+    a = "".join(' %s="%s"' % (k, xml_escape(v, True)) for k, v in attrs)
+    return "%s<%s%s>\n%s%s</%s>\n" % (pad, tag, a, "".join(tree_to_pretty(k, depth + 1) for k in kids), pad, tag)
 
 
 def lxml_to_tree(el, notes):
@@ -345,9 +389,11 @@ def content_diff(want, got, path="doc", ids=None):
 
 
 # ----------------------------------------------------------------------------- generator
-NAMES = ["a", "b", "p", "p-2", "p-3", "a-2", "s", "s-2", "ab", "q"]
-TYPES = ["t", "recording", "subject/animal"]
-WORDS = ["a", "b", "c", "x y", "1", "12", "w1", "é", "v", "zz"]
+NAMES = ["a", "b", "p", "p-2", "p-3", "a-2", "s", "s-2", "ab", "q", "p-10", "\u00f1"]
+NAMES_WF = ["a", "b", "p", "q", "s", "ab", "\u00f1"]
+TYPES = ["t", "recording", "subject/animal", "t\u00ffpe"]
+WORDS = ["a", "b", "c", "x y", "1", "12", "w1", "é", "v", "zz", "\u540d"]
+COMMENTS = [" note ", "c", " <section> old </section> ", "", " a - b "]
 TRICKY = ["a,b", "c,", ",", 'say "hi"', '"q"', '"', "[x]", "[x", "y]", "[a,b]", "a\nb", " lead", "trail ",
           " nb ", " ", "  ", "\n", "a;b", "(1;2)", "x\ty", "['one', 'two']", "a]b[c", "<&>",
           "a\rb", '"a,b"', "[]", "[", "]", "a, b", "''"]
@@ -355,7 +401,8 @@ VALID_IDS = ["79b613eb-a256-46bf-84f6-207df465b8f7", "{79B613EB-A256-46BF-84F6-2
              "urn:uuid:12345678-1234-5678-1234-567812345678", "12345678123456781234567812345678",
              "ABCDEF00-0000-4000-8000-00000000000A"]
 BAD_IDS = ["xyz", "1234", "79b613eb-a256-46bf-84f6-207df465b8fz", "79b613eb-a256-46bf-84f6-207df465b8f",
-           "79b613eb-a256-46bf-84f6-207df465b8f77", "not an id", ""]
+           "79b613eb-a256-46bf-84f6-207df465b8f77", "not an id", "",
+           " 79b613eb-a256-46bf-84f6-207df465b8f7 "]
 UNSUPPORTED = ["mapping", "foo", "Name", "synonym", "comment", "checksum", "encoder", "filename", "dtype",
                "values", "odML"]
 VATTR_UNSUP = ["encoder", "checksum", "comment", "foo", "Unit"]
@@ -367,12 +414,68 @@ class Gen(object):
         self.p = profile      # "wf": inside PlainValues / NoSuffixClash; "wild": everything
         self.marker = 0
 
+    # -- XML comments / processing instructions at any level --------------------
+    def misc(self):
+        if self.chance(0.85):
+            return T("#comment", self.r.choice(COMMENTS))
+        return T("#pi", self.r.choice(["note keep", "x-odml a=\"b\""]))
+
+    def decorate(self, tree, n, in_values):
+        """n comments / PIs at random places inside the document, root / Section / Property
+        level and (in_values) inside value elements."""
+        spots = []
+
+        def walk(t):
+            if t[0] in ("odML", "section", "property"):
+                spots.append(t)
+            elif t[0] == "value" and in_values:
+                spots.append(t)
+            for k in t[3]:
+                walk(k)
+        walk(tree)
+        plain = [t for t in spots if t[0] != "value"]
+        for _ in range(n):
+            pool = spots if (in_values and self.chance(0.5)) else plain
+            vals = [t for t in pool if t[0] == "value"]
+            t = self.r.choice(vals) if (vals and in_values and self.chance(0.6)) else self.r.choice(pool)
+            t[3].insert(self.r.randrange(len(t[3]) + 1), self.misc())
+        return tree
+
+    # -- boundary sizes: 10 and more siblings of one name, many value elements, deep chains --
+    def crowd_props(self):
+        name = self.name()
+        out = []
+        for i in range(self.r.choice([10, 11, 12, 13])):
+            kids = [T("name", name), T("value", "v%d" % i)]
+            if self.chance(0.3):
+                kids += self.idkid()
+            out.append(T("property", "", kids))
+        return out
+
+    def crowd_secs(self):
+        name = self.name()
+        out = []
+        for i in range(self.r.choice([10, 11, 12])):
+            kids = [T("name", name), T("type", "t")]
+            if self.chance(0.3):
+                kids.append(T("property", "", [T("name", "p"), T("value", str(i))]))
+            out.append(T("section", "", kids))
+        return out
+
+    def chain(self, n):
+        kids = [T("name", self.name()), T("type", self.r.choice(TYPES)), self.prop()] + self.idkid()
+        if n > 1:
+            kids.append(self.chain(n - 1))
+            if self.chance(0.5):
+                kids.append(self.chain(1))
+        return T("section", "", kids)
+
     def chance(self, x):
         return self.r.random() < x
 
     def name(self):
         if self.p == "wf":
-            return self.r.choice(["a", "b", "p", "q", "s", "ab"])
+            return self.r.choice(NAMES_WF)
         return self.r.choice(NAMES)
 
     def idkid(self):
@@ -431,6 +534,8 @@ class Gen(object):
             self.marker += 1
         dtype = self.r.choice([None, "string", "string", "text", "int", "binary"])
         nvals = self.r.choice([0, 1, 1, 2, 2, 3, 4])
+        if self.chance(0.04):
+            nvals = self.r.choice([5, 9, 10, 11, 12])
         where = self.r.choice(["first", "later", "all", "none", "random"])
         conflict = self.chance(0.4)
         vals = []
@@ -470,9 +575,13 @@ class Gen(object):
             kids.append(self.inert(self.r.choice(UNSUPPORTED)))
         for _ in range(self.r.choice([0, 1, 2, 2, 3, 4])):
             kids.append(self.prop())
+        if self.chance(0.02):
+            kids += self.crowd_props()
         if depth < 3:
             for _ in range(self.r.choice([0, 0, 1, 2, 3] if depth else [1, 2, 3])):
                 kids.append(self.section(depth + 1))
+            if self.chance(0.01):
+                kids += self.crowd_secs()
         if self.chance(0.3):
             head, rest = kids[:2], kids[2:]
             self.r.shuffle(rest)
@@ -496,6 +605,8 @@ class Gen(object):
             kids.append(self.prop())
         for _ in range(self.r.choice([0, 1, 1, 2, 3])):
             kids.append(self.section(0))
+        if self.chance(0.03):
+            kids.append(self.chain(self.r.choice([5, 6, 8, 9])))
         if self.chance(0.4):
             self.r.shuffle(kids)
         attrs = [["version", "1"]] if self.chance(0.8) else []
@@ -535,7 +646,10 @@ class Gen(object):
         where = self.r.choice(["first", "later", "all", "none", "random"])
         conflict = self.chance(0.4)
         vals = []
-        for i in range(self.r.choice([0, 1, 1, 2, 3, 4])):
+        nvals = self.r.choice([0, 1, 1, 2, 3, 4])
+        if self.chance(0.04):
+            nvals = self.r.choice([5, 9, 10, 11, 12])
+        for i in range(nvals):
             here = {"first": i == 0, "later": i > 0, "all": True, "none": False,
                     "random": self.chance(0.5)}[where]
             vals.append(self.d_val(dtype, here, conflict))
@@ -565,9 +679,18 @@ class Gen(object):
         if self.chance(0.25):
             items.append(["attr", self.r.choice(["mapping", "foo", "synonym"]), self.r.choice([None, "m"])])
         if self.chance(0.8):
-            items.append(["props", [self.d_prop() for _ in range(self.r.choice([0, 1, 2, 3]))]])
+            props = [self.d_prop() for _ in range(self.r.choice([0, 1, 2, 3]))]
+            if self.chance(0.03):
+                name = self.name()
+                props += [[["attr", "name", name], ["values", [[["value", "v%d" % i]]]]]
+                          for i in range(self.r.choice([10, 11, 12]))]
+            items.append(["props", props])
         if depth < 2 and self.chance(0.7):
-            items.append(["secs", [self.d_sec(depth + 1) for _ in range(self.r.choice([0, 1, 2, 3]))]])
+            secs = [self.d_sec(depth + 1) for _ in range(self.r.choice([0, 1, 2, 3]))]
+            if self.chance(0.02):
+                name = self.name()
+                secs += [[["attr", "name", name], ["attr", "type", "t"]] for _ in range(self.r.choice([10, 11]))]
+            items.append(["secs", secs])
         head, rest = items[:1], items[1:]
         self.r.shuffle(rest)
         return head + rest
@@ -620,15 +743,28 @@ class C15(fw.Check):
         "no repository / include elements (network), as the property says",
         "uuid.UUID modelled for ASCII hex texts (no '_', sign, blank or 0x inside a 32-character id)",
         "dict front ends: Document/Section/Property scalars are strings or null",
+        "XML comments / processing instructions are no content: the model is asked about the source "
+        "tree without them and they are ignored in the output; inside value elements, and for a StringIO "
+        "text with an encoding declaration, and for JSON / YAML under an ASCII locale the check is oracle-only",
     ]
     rule = ("generated 1.0 documents: any tree shape up to depth 4, 0..4 value elements per Property "
             "with attributes on the first / later / all / random values, agreeing and conflicting, "
             "duplicate sibling names at every level (incl. literal 'p-2'), present / absent / "
             "malformed / non-canonical ids, unsupported elements at document, section, property and "
             "value level, both dependency_value spellings, value texts with , \" [ ] newline blank; "
-            "x XML (StringIO and file) / JSON / YAML (file) x write_to_file target names; plus csv / "
-            "uuid differential streams. Non-trivial = the conversion changes or drops something. "
+            "x XML (StringIO and file) / JSON / YAML (file) x write_to_file target names; 10-13 siblings "
+            "of one name, 5-12 value elements, section chains of depth 5-9; the same documents in other "
+            "surface syntax (pretty-printed, XML declaration, stylesheet PI, comments / PIs at every level, "
+            "ISO-8859-1 / UTF-16 / BOM files, raw / escaped non-ASCII and flow style in JSON / YAML, StringIO "
+            "read position) x backend spelling (lower / mixed case / left out); operation histories on one "
+            "converter object (convert, write_to_file, str, refused and failing calls, source rewritten in "
+            "between, another converter in between); JSON / YAML / XML files in a child process with an ASCII "
+            "locale and another hash seed; plus csv / uuid differential streams. Non-trivial = the conversion changes or drops something. "
             "distinct = distinct canonical JSON of the case.")
+
+    # a history case runs up to 7 conversions, a locale case starts a child interpreter; the
+    # machine is shared: generous limit per case (CPU seconds; wall limit is 6 times that)
+    case_timeout = 60
 
     def __init__(self):
         self.flags = {}
@@ -649,6 +785,9 @@ class C15(fw.Check):
             else:
                 cases.append({"stream": "conv", "fmt": "JSON" if kind == 3 else "YAML", "input": "file",
                               "doc": g.d_doc(), "out": rng.choice(["res", "res.xml", "o.odml"])})
+        cases += self.generate_surface(210 if tier == "quick" else 4000, rng)
+        cases += self.generate_hist(220 if tier == "quick" else 4000, rng)
+        cases += self.generate_locale(6 if tier == "quick" else 48, rng)
         m = 300 if tier == "quick" else 8000
         alpha = ['a', 'b', ',', '"', '[', ']', ' ', '\n', '\r', 'x', "'", ';']
         for _ in range(m):
@@ -668,6 +807,125 @@ class C15(fw.Check):
             cases.append({"stream": "uuid", "s": body})
         for f in ["res", "res.xml", "res.odml", "a.xml.txt", ".xml", "xml", "", "x.XML", "dir/out.odml"]:
             cases.append({"stream": "outname", "s": f})
+        return cases
+
+    @staticmethod
+    def backend_spelling(rng, fmt):
+        """how the caller writes the backend argument: the code upper-cases it; for XML it may
+        be left out"""
+        c = rng.random()
+        if c < 0.3:
+            return fmt
+        if c < 0.55:
+            return fmt.lower()
+        if c < 0.75:
+            return fmt.capitalize()
+        if c < 0.85:
+            return "".join(ch.upper() if rng.random() < 0.5 else ch.lower() for ch in fmt)
+        return "default" if fmt == "XML" else fmt.lower()
+
+    def generate_surface(self, n, rng):
+        """conv cases that vary how the same 1.0 document is written down and how the
+        call is spelled: pretty-printed / compact, XML declaration, stylesheet PI, comments and
+        PIs at every level, file encodings, BOM, raw non-ASCII in JSON; backend spelling."""
+        cases = []
+        for i in range(n):
+            g = Gen(rng, "wf" if i % 3 else "wild")
+            kind = i % 6
+            backend = self.backend_spelling(rng, "XML" if kind < 4 else ("JSON" if kind == 4 else "YAML"))
+            if kind < 4:
+                tree = g.doc()
+                inp = "stringio" if kind < 2 else "file"
+                nmisc = rng.choice([0, 0, 1, 2, 3, 5])
+                if nmisc:
+                    g.decorate(tree, nmisc, in_values=(rng.random() < 0.2))
+                if inp == "stringio":
+                    decl = rng.choice([None, None, "noenc", "noenc", "UTF-8"])
+                else:
+                    decl = rng.choice([None, "noenc", "UTF-8", "utf-8", "ISO-8859-1", "UTF-16", "bom", "bom+UTF-8"])
+                surface = {"pretty": rng.random() < 0.6, "decl": decl, "pi": rng.random() < 0.4,
+                           "top": rng.random() < 0.25, "tail": rng.random() < 0.15}
+                if inp == "stringio":
+                    # where the read position of the StringIO is: start, end (just written), middle
+                    surface["pos"] = rng.choice(["start", "end", "mid"])
+                case = {"stream": "conv", "fmt": "XML", "input": inp, "tree": tree, "surface": surface,
+                        "backend": backend}
+                if inp == "file":
+                    case["out"] = rng.choice(["res", "res.xml", "res.odml", "res.txt"])
+                cases.append(case)
+            else:
+                fmt = "JSON" if kind == 4 else "YAML"
+                surface = {"raw": rng.random() < 0.7, "compact": rng.random() < 0.4}
+                cases.append({"stream": "conv", "fmt": fmt, "input": "file", "doc": g.d_doc(),
+                              "out": rng.choice(["res", "res.xml", "o.odml"]), "surface": surface,
+                              "backend": backend})
+        return cases
+
+    def generate_locale(self, n, rng):
+        """conv cases (file input) run in a child interpreter whose locale encoding is ASCII:
+        what a source file means does not depend on the locale of the process"""
+        cases = []
+        for i in range(n):
+            fmt = ["JSON", "YAML", "XML"][i % 3]
+            for _ in range(6):
+                g = Gen(rng, "wf")
+                case = {"stream": "conv", "fmt": fmt, "input": "file", "out": "res", "locale": "C",
+                        "surface": {"pretty": True, "decl": "UTF-8"} if fmt == "XML" else
+                                   ({"raw": True} if i % 2 == 0 else {"escaped": True}),
+                        "backend": fmt, "hashseed": rng.choice([0, 1, 7, 4242])}
+                case["tree" if fmt == "XML" else "doc"] = g.doc() if fmt == "XML" else g.d_doc()
+                if i % 2 or not self.ascii_source(case):
+                    break
+            cases.append(case)
+        return cases
+
+    def ascii_source(self, case):
+        return all(b < 128 for b in self.source_of(case)[1])
+
+    def generate_hist(self, n, rng):
+        """operation histories on one converter object"""
+        cases = []
+        targets = ["res", "res.xml", "o.odml", "res.txt", "second"]
+        for i in range(n):
+            g = Gen(rng, "wf" if i % 3 else "wild")
+            fmt = ["XML", "XML", "XML", "JSON", "YAML"][i % 5]
+            inp = "stringio" if (fmt == "XML" and rng.random() < 0.5) else "file"
+            others = [f for f in ("XML", "JSON", "YAML") if f != fmt]
+            ops = []
+            for _ in range(rng.choice([2, 2, 3, 3, 4, 5, 6])):
+                c = rng.random()
+                if c < 0.34:
+                    ops.append(["convert", self.backend_spelling(rng, fmt)])
+                elif c < 0.58:
+                    ops.append(["write", rng.choice(targets), self.backend_spelling(rng, fmt)])
+                elif c < 0.64:
+                    ops.append([rng.choice(["str", "str", "unicode"])])
+                elif c < 0.70:
+                    ops.append(["bad", rng.choice(["CSV", "", "XMLX", "odml", " xml"])])
+                elif c < 0.76:
+                    ops.append(["wrong", rng.choice(others)])
+                elif c < 0.82:
+                    ops.append(["write_nodir", rng.choice(targets), self.backend_spelling(rng, fmt)])
+                elif c < 0.91:
+                    ops.append(["edit"])
+                else:
+                    ops.append(["other"])
+            # at least two calls that deliver an output, the last op is one of them
+            judged = [o for o in ops if o[0] in ("convert", "write")]
+            if len(judged) < 2 or ops[-1][0] not in ("convert", "write"):
+                ops.append(["write", rng.choice(targets), self.backend_spelling(rng, fmt)] if rng.random() < 0.5
+                           else ["convert", self.backend_spelling(rng, fmt)])
+            if len([o for o in ops if o[0] in ("convert", "write")]) < 2:
+                ops.insert(0, ["convert", self.backend_spelling(rng, fmt)])
+            case = {"stream": "hist", "fmt": fmt, "input": inp, "ops": ops}
+            second = any(o[0] in ("edit", "other") for o in ops)     # else the second document is not used
+            if fmt == "XML":
+                case["tree"] = g.doc()
+                case["tree2"] = g.doc() if second else T("odML", "", [], [["version", "1"]])
+            else:
+                case["doc"] = g.d_doc()
+                case["doc2"] = g.d_doc() if second else [["secs", []]]
+            cases.append(case)
         return cases
 
     # -- implementation ------------------------------------------------------
@@ -692,7 +950,28 @@ class C15(fw.Check):
                 return {"uuid": None}
         if st == "outname":
             return self.impl_outname(case["s"])
+        if st == "hist":
+            return self.impl_hist(case)
+        if case.get("locale"):
+            return self.impl_locale(case)
         return self.impl_conv(case)
+
+    def impl_locale(self, case):
+        """impl_conv in a child interpreter started with an ASCII locale"""
+        code = ("import sys, json; sys.path.insert(0, %r); import framework as fw, c15; "
+                "case = json.loads(sys.stdin.read()); case.pop('locale');\n"
+                "with fw.quiet(): obs = c15.C15().impl_conv(case)\n"
+                "import locale; obs['encoding'] = locale.getpreferredencoding(False); "
+                "print('RESULT' + json.dumps(obs))"
+                % os.path.dirname(os.path.abspath(__file__)))
+        env = dict(os.environ, PYTHONUTF8="0", PYTHONCOERCECLOCALE="0", LC_ALL="C", LANG="C",
+                   ODML_REPO=fw.REPO, PYTHONDONTWRITEBYTECODE="1", PYTHONHASHSEED=str(case.get("hashseed", 0)))
+        proc = subprocess.run([sys.executable, "-c", code], input=json.dumps(case).encode("ascii"),
+                              env=env, stdout=subprocess.PIPE, stderr=subprocess.PIPE, timeout=600)
+        for line in proc.stdout.decode("ascii", "replace").splitlines():
+            if line.startswith("RESULT"):
+                return json.loads(line[len("RESULT"):])
+        raise RuntimeError("child interpreter gave no result: %s" % proc.stderr.decode("ascii", "replace")[-600:])
 
     def impl_outname(self, name):
         from odml.tools.converters import VersionConverter
@@ -718,40 +997,102 @@ class C15(fw.Check):
                 out.append(os.path.relpath(os.path.join(d, f), root))
         return sorted(out)
 
-    def source_of(self, case):
-        """-> (text, source tree as the dict/tree means it)"""
+    def source_of(self, case, version=0):
+        """-> (text a StringIO source holds, bytes a source file holds, XML body without prolog)"""
+        sf = case.get("surface") or {}
         if case["fmt"] == "XML":
-            return tree_to_xml(case["tree"]), None
-        data = {"Document": dsec_py(case["doc"]), "odml-version": "1"}
+            tree = case["tree2" if version else "tree"]
+            body = tree_to_pretty(tree) if sf.get("pretty") else tree_to_xml(tree)
+            decl = sf.get("decl")
+            pre, enc, bom = "", "utf-8", b""
+            if decl == "noenc":
+                pre = '<?xml version="1.0"?>\n'
+            elif decl in ("UTF-8", "utf-8", "ISO-8859-1", "UTF-16"):
+                pre, enc = '<?xml version="1.0" encoding="%s"?>\n' % decl, decl
+            elif decl == "bom":
+                bom = b"\xef\xbb\xbf"
+            elif decl == "bom+UTF-8":
+                pre, bom = '<?xml version="1.0" encoding="UTF-8"?>\n', b"\xef\xbb\xbf"
+            if sf.get("pi"):
+                pre += '<?xml-stylesheet type="text/xsl" href="odmlTerms.xsl"?>\n'
+            if sf.get("top"):
+                pre += "<!-- odML 1.0 file -->\n"
+            text = pre + body + ("\n<!-- end -->\n" if sf.get("tail") else "")
+            return text, bom + text.encode(enc, "xmlcharrefreplace"), body
+        data = {"Document": dsec_py(case["doc2" if version else "doc"]), "odml-version": "1"}
         if case["fmt"] == "JSON":
-            return json.dumps(data, indent=2), None
-        import yaml
-        return yaml.safe_dump(data, sort_keys=False, allow_unicode=True), None
+            text = json.dumps(data, indent=None if sf.get("compact") else 2, ensure_ascii=not sf.get("raw"))
+        else:
+            import yaml
+            text = yaml.safe_dump(data, sort_keys=False, allow_unicode=not sf.get("escaped"),
+                                  default_flow_style=True if sf.get("compact") else False)
+        return text, text.encode("utf-8"), None
+
+    @staticmethod
+    def backend_args(case_backend, fmt):
+        if case_backend is None:
+            return (fmt,)
+        if case_backend == "default":
+            return ()
+        return (case_backend,)
+
+    @staticmethod
+    def decorated(case):
+        sf = case.get("surface") or {}
+        return bool(sf.get("pi") or sf.get("top") or sf.get("tail")) or \
+            any(has_misc(case[k]) for k in ("tree", "tree2") if k in case)
+
+    @staticmethod
+    def value_has_misc(tree):
+        """a comment / PI somewhere inside a value element of a named Property"""
+        def in_prop(p):
+            if find(p[3], "name") is None:
+                return False
+            return any(k[0] == "value" and any(is_misc(d) for d in descend(k)) for k in p[3])
+
+        def walk(t):
+            if t[0] == "property":
+                return in_prop(t)
+            return any(walk(k) for k in t[3] if not is_misc(k))
+        return walk(tree)
+
+    @staticmethod
+    def declares_encoding(case):
+        d = (case.get("surface") or {}).get("decl")
+        return d is not None and d not in ("noenc", "bom")
 
     def impl_conv(self, case):
         from odml.tools.converters import VersionConverter
         from odml.tools.xmlparser import XMLReader, XML_HEADER
-        text, _ = self.source_of(case)
+        text, data, body = self.source_of(case)
+        bargs = self.backend_args(case.get("backend"), case["fmt"])
         obs = {}
         notes = []
         tmp = tempfile.mkdtemp(prefix="c15")
         try:
             if case["fmt"] == "XML":
-                obs["src_parsed"] = parse_text(text, notes)
+                # comments / PIs of the source are not part of the abstract tree
+                obs["src_parsed"] = parse_text(body, [] if self.decorated(case) else notes)
             if case["input"] == "stringio":
                 src = io.StringIO(text)
+                pos = (case.get("surface") or {}).get("pos")
+                if pos == "end":
+                    src = io.StringIO()
+                    src.write(text)
+                elif pos == "mid":
+                    src.read(len(text) // 2)
                 src_path = None
             else:
                 ext = {"XML": ".xml", "JSON": ".json", "YAML": ".yaml"}[case["fmt"]]
                 src_path = os.path.join(tmp, "src" + ext)
-                with io.open(src_path, "w", encoding="utf-8", newline="") as fh:
-                    fh.write(text)
+                with open(src_path, "wb") as fh:
+                    fh.write(data)
                 with open(src_path, "rb") as fh:
                     src_bytes = fh.read()
                 src = src_path
             vc = VersionConverter(src)
             try:
-                out = vc.convert(case["fmt"])
+                out = vc.convert(*bargs)
                 obs["raised"] = None
             except Exception as exc:
                 out = None
@@ -777,7 +1118,7 @@ class C15(fw.Check):
                 target = os.path.join(tmp, case["out"])
                 before = self.listing(tmp)
                 try:
-                    VersionConverter(src_path).write_to_file(target, case["fmt"])
+                    VersionConverter(src_path).write_to_file(target, *bargs)
                     obs["write_raised"] = None
                 except Exception as exc:
                     obs["write_raised"] = fw.exc_name(exc)
@@ -794,7 +1135,113 @@ class C15(fw.Check):
                         obs["written_tree"] = parse_text(written.encode("utf-8"), notes)
                     except Exception as exc:
                         obs["written_tree"] = {"unparsable": fw.exc_name(exc)}
+            if self.decorated(case):
+                # the comments / PIs of the source may stay in the output: no part of the content
+                notes = [n for n in notes if n != "non-element node"]
             obs["notes"] = notes
+            return obs
+        finally:
+            shutil.rmtree(tmp, ignore_errors=True)
+
+    # -- histories on one converter object -----------------------------------------
+    def impl_hist(self, case):
+        from odml.tools.converters import VersionConverter
+        from odml.tools.xmlparser import XMLReader, XML_HEADER
+        fmt = case["fmt"]
+        vers = [self.source_of(case, 0), self.source_of(case, 1)]
+        obs = {"steps": []}
+        tmp = tempfile.mkdtemp(prefix="c15h")
+        try:
+            if fmt == "XML":
+                obs["src_parsed"] = [parse_text(v[2], []) for v in vers]
+            ext = {"XML": ".xml", "JSON": ".json", "YAML": ".yaml"}[fmt]
+            src_path = None
+            if case["input"] == "stringio":
+                src = io.StringIO(vers[0][0])
+            else:
+                src_path = os.path.join(tmp, "src" + ext)
+                with open(src_path, "wb") as fh:
+                    fh.write(vers[0][1])
+                src = src_path
+            other_path = os.path.join(tmp, "other" + ext)
+            with open(other_path, "wb") as fh:
+                fh.write(vers[1][1])
+            base = set(self.listing(tmp))
+            cur = 0
+            vc = VersionConverter(src)
+            for op in case["ops"]:
+                st = {"op": op, "ver": cur, "raised": None}
+                notes = []
+                out = None
+                kind = op[0]
+                try:
+                    if kind == "convert":
+                        out = vc.convert(*self.backend_args(op[1], fmt))
+                    elif kind == "str":
+                        out = str(vc)
+                    elif kind == "unicode":
+                        out = vc.__unicode__()
+                    elif kind == "write":
+                        target = os.path.join(tmp, op[1])
+                        vc.write_to_file(target, *self.backend_args(op[2], fmt))
+                    elif kind == "write_nodir":
+                        vc.write_to_file(os.path.join(tmp, "nodir", op[1]), *self.backend_args(op[2], fmt))
+                    elif kind in ("bad", "wrong"):
+                        vc.convert(op[1])
+                    elif kind == "edit":
+                        cur = 1
+                        st["ver"] = 1
+                        if src_path is None:
+                            src.seek(0)
+                            src.truncate()
+                            src.write(vers[1][0])
+                        else:
+                            with open(src_path, "wb") as fh:
+                                fh.write(vers[1][1])
+                    elif kind == "other":
+                        VersionConverter(other_path if src_path else io.StringIO(vers[1][0])).convert(fmt)
+                except Exception as exc:
+                    st["raised"] = fw.exc_name(exc)
+                st["log"] = [str(m) for m in vc.conversion_log]
+                if src_path is None:
+                    st["src_ok"] = (src.getvalue() == vers[cur][0])
+                else:
+                    with open(src_path, "rb") as fh:
+                        st["src_ok"] = (fh.read() == vers[cur][1])
+                with open(other_path, "rb") as fh:
+                    st["src_ok"] = st["src_ok"] and fh.read() == vers[1][1]
+                st["files"] = sorted(set(self.listing(tmp)) - base)
+                if kind == "write" and st["raised"] is None:
+                    want = op[1] if op[1].endswith((".xml", ".odml")) else op[1] + ".xml"
+                    st["want"] = want
+                    path = os.path.join(tmp, want)
+                    if os.path.isfile(path):
+                        with io.open(path, encoding="utf-8") as fh:
+                            out = fh.read()
+                        st["header"] = out.startswith(XML_HEADER)
+                        try:
+                            doc = XMLReader(ignore_errors=False, show_warnings=False).from_file(path)
+                            st["loaded"], st["load_error"] = loaded_doc(doc), None
+                        except Exception as exc:
+                            st["loaded"], st["load_error"] = None, fw.exc_name(exc)
+                        out = out.encode("utf-8")
+                    else:
+                        st["missing"] = True
+                elif isinstance(out, str) and kind in ("convert", "str", "unicode"):
+                    try:
+                        doc = XMLReader(ignore_errors=False, show_warnings=False).from_string(out)
+                        st["loaded"], st["load_error"] = loaded_doc(doc), None
+                    except Exception as exc:
+                        st["loaded"], st["load_error"] = None, fw.exc_name(exc)
+                if out is not None and kind in ("convert", "str", "unicode", "write"):
+                    try:
+                        st["tree"] = parse_text(out, notes)
+                    except Exception as exc:
+                        st["tree"] = None
+                        st["unparsable"] = fw.exc_name(exc)
+                    st["delivered"] = True
+                st["notes"] = notes
+                obs["steps"].append(st)
             return obs
         finally:
             shutil.rmtree(tmp, ignore_errors=True)
@@ -814,7 +1261,18 @@ class C15(fw.Check):
             return [{"op": "uuid", "s": s}]
         if st == "outname":
             return [{"op": "outname", "s": case["s"]}]
+        if st == "hist":
+            if case["fmt"] == "XML":
+                return [{"op": "convert", "fresh": FRESH, "tree": t} for t in obs["src_parsed"]]
+            return [{"op": "dict", "fresh": FRESH, "doc": case[k]} for k in ("doc", "doc2")]
+        if case.get("locale") and case["fmt"] != "XML" and not self.ascii_source(case):
+            return []       # oracle only: the model has no locale (known finding, see finding_key)
         if case["fmt"] == "XML":
+            if self.value_has_misc(case["tree"]) or \
+                    (case["input"] == "stringio" and self.declares_encoding(case)):
+                # oracle only: the model has no comments inside value elements and no text
+                # encoding declarations (both are known findings, see finding_key)
+                return []
             return [{"op": "convert", "fresh": FRESH, "tree": obs["src_parsed"]}]
         return [{"op": "dict", "fresh": FRESH, "doc": case["doc"]}]
 
@@ -879,6 +1337,8 @@ class C15(fw.Check):
                 out.append("write_to_file(%r): model writes %r, implementation created %s"
                            % (case["s"], a, obs["new"]))
             return out
+        if st == "hist":
+            return self.compare_hist(case, obs, answers)
         self.flags[fw.canon(case)] = {k: a[k] for k in ("wf", "plain", "noclash", "shape", "raises")}
         if not a["shape"]:
             return []           # outside the modelled shape (the generator does not go there)
@@ -901,8 +1361,51 @@ class C15(fw.Check):
             out += ["reader: " + d for d in content_diff(a["read"], obs["loaded"])]
         return out
 
+    @staticmethod
+    def merge_flags(answers):
+        fl = {k: all(a[k] for a in answers) for k in ("wf", "plain", "noclash", "shape")}
+        fl["raises"] = any(a["raises"] for a in answers)
+        return fl
+
+    def compare_hist(self, case, obs, answers):
+        """every delivered output of a history against the model's conversion of the source as it
+        was at that call (weaker reading after an edit: or as it was at an earlier call)"""
+        self.flags[fw.canon(case)] = self.merge_flags(answers)
+        out = []
+        if not all(a["shape"] for a in answers) or any(a["raises"] for a in answers):
+            return []
+        if case["fmt"] != "XML":
+            for a, key in zip(answers, ("doc", "doc2")):
+                want_src = dsec_tree(case[key], "odML")
+                if a["source"] != want_src:
+                    out.append("front end: model tree %s, dict means %s" % (a["source"], want_src))
+        for i, st in enumerate(obs["steps"]):
+            if not st.get("delivered") or st["raised"] is not None:
+                continue
+            where = "step %d %s: " % (i, st["op"][0])
+            if st.get("notes"):
+                out.append(where + "output has content the abstract tree cannot hold: %s" % st["notes"][:3])
+            if st.get("tree") is None:
+                out.append(where + "output is not parsable (%s)" % st.get("unparsable"))
+                continue
+            best = None
+            for v in range(st["ver"], -1, -1):
+                a = answers[v]
+                d = self.tree_diff(a["tree"], st["tree"], "", set()) + self.log_diff(a["log"], st["log"])
+                if st.get("loaded") is not None:
+                    d += ["reader: " + x for x in content_diff(a["read"], st["loaded"])]
+                if best is None:
+                    best = d
+                if not d:
+                    best = d
+                    break
+            out += [where + x for x in best]
+        return out
+
     # -- oracle --------------------------------------------------------------
     def oracle(self, case, obs):
+        if "harness_exception" not in obs and case["stream"] == "hist":
+            return self.oracle_hist(case, obs)
         if "harness_exception" in obs or case["stream"] != "conv":
             return []
         src_tree = case["tree"] if case["fmt"] == "XML" else dsec_tree(case["doc"], "odML")
@@ -926,18 +1429,29 @@ class C15(fw.Check):
             if secs_named:
                 out.append("load: conversion raised %s" % obs["raised"])
             return out
+        return out + self.judge_output(src_tree, obs)
+
+    def judge_output(self, src_tree, obs):
+        """One delivered conversion result (obs: tree, loaded / load_error, log) against the 1.0
+        content of src_tree."""
+        out = []
         out += self.ids_in_output(obs["tree"], src_tree)
         if obs.get("load_error") is not None:
             out.append("load: strict reader raised %s on the converted document" % obs["load_error"])
         else:
             out += content_diff(spec_doc(src_tree), obs["loaded"])
-        # everything dropped is in the log
+        return out + self.judge_log(src_tree, obs["log"])
+
+    @staticmethod
+    def judge_log(src_tree, log):
+        """everything dropped is in the log"""
+        out = []
         try:
             from odml import format as ofmt
             sec_keys, doc_keys = list(ofmt.Section.arguments_keys), list(ofmt.Document.arguments_keys)
         except Exception:
             return out
-        log = list(obs["log"])
+        log = list(log)
         for kind, tag, text in dropped_items(src_tree, sec_keys, doc_keys):
             if kind == "unnamed":
                 marks = [d[2] for d in descend(text) if d[2].startswith("UNNAMED")]
@@ -949,6 +1463,77 @@ class C15(fw.Check):
                 if not hit:
                     out.append("log: dropped element <%s>%s is not in the conversion log" % (tag, text))
         return out
+
+    def oracle_hist(self, case, obs):
+        """The property holds for every call that delivers an output, whatever the converter
+        object has been used for before: the output is judged exactly like a single conversion
+        (content, ids, loadable, log of that call mentions everything dropped), the source is
+        never modified, only the named targets are created.
+
+        Weaker readings: after the source was rewritten between two calls the output may be the
+        conversion of the current source or of an earlier state (a converter may remember what it
+        read) - but content and log have to belong to the same state; calls that are refused or
+        fail, and str() (no observation point of the property; it raises TypeError on the unchanged
+        tree), are not judged, only what they leave behind for the next call is; the log is read
+        again after another converter object has worked and must still mention everything."""
+        if case["fmt"] == "XML":
+            trees = obs["src_parsed"]
+        else:
+            trees = [dsec_tree(case["doc"], "odML"), dsec_tree(case["doc2"], "odML")]
+        out = []
+        allowed = set()
+        last = None           # source version the immediately preceding judged output belongs to
+        for i, st in enumerate(obs["steps"]):
+            kind = st["op"][0]
+            where = "[step %d %s] " % (i, kind)
+            if not st["src_ok"]:
+                out.append("source: " + where + "the source was modified")
+            if kind == "write" and st["raised"] is None:
+                allowed.add(st["want"])
+            extra = [f for f in st["files"] if f not in allowed]
+            if extra:
+                out.append("source: " + where + "files %s were created" % extra)
+                allowed.update(extra)          # report once
+            if kind == "other":
+                if last is not None:
+                    out += [self.at(where + "after another converter worked: ", f)
+                            for f in self.judge_log(trees[last], st["log"])]
+                continue
+            delivered = st["raised"] is None and kind in ("convert", "write") or \
+                (kind in ("str", "unicode") and st["raised"] is None and st.get("delivered"))
+            if not delivered:
+                last = None
+                if kind in ("convert", "write") and st["raised"] is not None:
+                    out.append(self.at(where, "load: conversion raised %s" % st["raised"]))
+                continue
+            if kind == "write":
+                if st.get("missing"):
+                    out.append("source: " + where + "write_to_file(%r) did not create %r" % (st["op"][1], st["want"]))
+                    last = None
+                    continue
+                if st.get("header") is False:
+                    out.append(self.at(where, "load: written file lacks the XML header"))
+            if st.get("tree") is None:
+                out.append(self.at(where, "load: the output is not parsable XML (%s)" % st.get("unparsable")))
+                last = None
+                continue
+            best = None
+            for v in range(st["ver"], -1, -1):
+                fails = self.judge_output(trees[v], st)
+                if best is None:
+                    best = fails
+                    last = v
+                if not fails:
+                    best, last = fails, v
+                    break
+            out += [self.at(where, f) for f in best]
+        return out
+
+    @staticmethod
+    def at(where, failure):
+        """keeps the kind prefix (`values: ...`) of a failure in front"""
+        kind, rest = failure.split(":", 1)
+        return "%s: %s%s" % (kind, where, rest.strip())
 
     @staticmethod
     def ids_in_output(tree, src_tree):
@@ -982,26 +1567,48 @@ class C15(fw.Check):
 
     def tag(self, case, obs):
         st = case["stream"]
+        if st == "hist":
+            return ("hist:%s:%s" % (case["fmt"], case["input"]), True)
         if st != "conv":
             return (st, True)
+        if case.get("locale"):
+            return ("conv-locale:%s:%s:%s" % (case["fmt"], obs.get("encoding"),
+                                              "raised" if obs.get("raised") else "ok"), True)
+        if case.get("surface") is not None:
+            return ("conv-surface:%s:%s:%s" % (case["fmt"], case["input"],
+                                               "raised" if obs.get("raised") else "ok"), True)
         changed = bool(obs.get("log")) or obs.get("raised") is not None
         t = "conv:%s:%s:%s" % (case["fmt"], case["input"],
                                "raised" if obs.get("raised") else ("loadfail" if obs.get("load_error") else "ok"))
         return (t, changed or True)
 
     def finding_key(self, case, obs, failure):
+        kind = failure.split(":", 1)[0]
+        if case.get("stream") == "conv" and case.get("fmt") == "XML" and "harness_exception" not in obs:
+            # two narrow input shapes on which convert() itself raises (nothing else is observed then)
+            if failure == "load: conversion raised ValueError" and obs.get("raised") == "ValueError" and \
+                    case["input"] == "stringio" and self.declares_encoding(case):
+                return "C15-stringio-with-encoding-declaration"
+            if failure == "load: conversion raised TypeError" and obs.get("raised") == "TypeError" and \
+                    self.value_has_misc(case["tree"]):
+                return "C15-comment-inside-value-element"
+        if case.get("stream") == "conv" and case.get("locale") and case.get("fmt") in ("JSON", "YAML") and \
+                failure == "load: conversion raised UnicodeDecodeError" and \
+                obs.get("raised") == "UnicodeDecodeError" and not self.ascii_source(case):
+            return "C15-json-yaml-source-read-in-locale-encoding"
         fl = self.flags.get(fw.canon(case))
-        if not fl and case.get("stream") == "conv" and "harness_exception" not in obs:
+        if not fl and case.get("stream") in ("conv", "hist") and "harness_exception" not in obs:
             # the search after a broken tie has not asked the model yet: the side conditions are
             # always evaluated by the Lean driver, never re-implemented here
             try:
-                a = fw.Model(self.driver()).ask(self.model_requests(case, obs))[0]
-                fl = self.flags[fw.canon(case)] = {k: a[k] for k in ("wf", "plain", "noclash", "shape", "raises")}
+                reqs = self.model_requests(case, obs)
+                if not reqs and case["fmt"] == "XML":
+                    reqs = [{"op": "convert", "fresh": FRESH, "tree": obs["src_parsed"]}]
+                fl = self.flags[fw.canon(case)] = self.merge_flags(fw.Model(self.driver()).ask(reqs))
             except Exception:
                 fl = None
         if not fl:
             return None
-        kind = failure.split(":", 1)[0]
         if not fl["plain"] and kind in ("values", "load"):
             return "C15-values-joined-with-bare-commas"
         if not fl["noclash"] and kind in ("names", "load", "tree"):
